@@ -11,8 +11,8 @@ import (
 	"go/build"
 	"io"
 	"os"
-	"path"
 	"path/filepath"
+	"strings"
 	"time"
 
 	log "github.com/sirupsen/logrus"
@@ -66,7 +66,9 @@ var cacheRoot = func() string {
 // strings. The set of keys must uniquely identify cacheable object. Prefer
 // using more specific functions to ensure key consistency.
 func cachedPath(keys ...string) string {
-	key := path.Join(keys...)
+	// Not path.Join: it cleans "..", "." and empty segments, also those that are
+	// part of a key string, which maps different keys to the same path.
+	key := strings.Join(keys, "/")
 	if key == "" {
 		panic("CachedPath() must not be used with an empty string")
 	}
@@ -280,6 +282,12 @@ func (bc *BuildCache) commonKey() string {
 }
 
 // packageKey returns a full cache key for a package's cache.
+//
+// The parts are concatenated verbatim. They must not go through path.Join (or
+// any other path cleaning): the rendered configuration contains slashes
+// (GOROOT, GOPATH), so a "/../", "/./" or "//" inside a build tag, the version
+// or the import path would swallow neighbouring parts of the configuration
+// and make two different configurations share one cache entry.
 func (bc *BuildCache) packageKey(importPath string) string {
-	return path.Join("package", bc.commonKey(), importPath)
+	return "package/" + bc.commonKey() + "/" + importPath
 }
